@@ -8,7 +8,7 @@ from typing import Dict, List, Optional, Set, Tuple
 from ..core import astutil as A
 from ..core.index import AnalysisError, FuncInfo, external_module
 from ..selftest import M
-from .common import (subscript_stores, may_conds, atoms_of, is_early_exit_guard, BASE_OUTLINE, OTF_OUTLINE, T, attr_stores, calls_named, conds, entails, every_origin, fold_body,
+from .common import (branch_values, subscript_stores, may_conds, atoms_of, is_early_exit_guard, BASE_OUTLINE, OTF_OUTLINE, T, attr_stores, calls_named, conds, entails, every_origin, fold_body,
                      key, need, where)
 
 FID = "ufo2ft.fontInfoData"
@@ -59,6 +59,8 @@ def run(prog, chk):
     ]
     chk.decided += ["CFF hint data: the stem entries (StemSnapH / StemSnapV / StdHW / StdVW) are written under tests on the stem attributes alone and the blues entries under tests on the "
                     "blues attributes alone - explicit stems are not dropped because the font has no alignment zones, nor the other way round (R16.12)"]
+    chk.decided += ["OS/2 sub / superscript metrics: an absent superscript size falls back to the *resolved* subscript size and an absent x offset is derived from the *resolved* y offset of the same "
+                    "table (an explicit sibling value carries over), as the fallback chain of setupTable_OS2 defines it (R16.13)"]
     chk.not_decided += ["the field values themselves", "which code points the Unicode database decomposes to ASCII",
                         "that the saved font reloads"]
     static, special = fallback_tables(prog, chk)
@@ -76,6 +78,7 @@ def run(prog, chk):
     chk.guard(r1610, prog, chk)
     chk.guard(r1611, prog, chk)
     chk.guard(r1612, prog, chk)
+    chk.guard(r1613, prog, chk)
 
 
 # ------------------------------------------------------------------------- tables
@@ -146,6 +149,18 @@ def possible_values(prog, fi: FuncInfo, expr: ast.AST, _depth=0):
                 try:
                     seq = ix.const_eval(fi.module, it, cls, env)
                 except (ValueError, TypeError, KeyError, AttributeError, IndexError):
+                    # a dict display with literal keys and computed values: the keys are still known
+                    lit = it
+                    if isinstance(lit, ast.Name):
+                        dd = prog.reaching(fi, lit.id, lit)
+                        lit = dd[0].value if len(dd) == 1 and dd[0].kind == "assign" and dd[0].element()[1] is None else None
+                    if isinstance(lit, ast.Dict) and lit.keys and all(isinstance(k, ast.Constant) for k in lit.keys) and comp in (None, "keys", "items"):
+                        if comp == "items":
+                            tn = d.target.elts if isinstance(d.target, (ast.Tuple, ast.List)) else None
+                            if not tn or len(tn) != 2 or not (isinstance(tn[0], ast.Name) and tn[0].id == expr.id):
+                                return None
+                        vals.update(k.value for k in lit.keys)
+                        continue
                     return None
                 if isinstance(seq, dict):
                     if comp in (None, "keys"):
@@ -1128,7 +1143,49 @@ def r1612(prog, chk):
     chk.minimum("R16.12", 12)
 
 
+# ----------------------------------------------------------------------------- R16.13
+# field -> the already resolved field of the same table its fallback is computed from (read off setupTable_OS2, confirmed
+# against the AFDKO defaults it cites: superscript sizes repeat the subscript sizes, x offsets follow the slant of the y offset)
+OS2_DERIVED = {"ySuperscriptXSize": "ySubscriptXSize", "ySuperscriptYSize": "ySubscriptYSize",
+               "ySubscriptXOffset": "ySubscriptYOffset", "ySuperscriptXOffset": "ySuperscriptYOffset"}
+
+
+def r1613(prog, chk):
+    ix = prog.ix
+    f = ix.get_method(BASE_OUTLINE, "setupTable_OS2", own=True)
+    cfg = prog.cfg(f)
+    for fld, dep in sorted(OS2_DERIVED.items()):
+        sts = [(s_, t, v) for s_, t, v in attr_stores(f, fld)]
+        dsts = [(s_, t, v) for s_, t, v in attr_stores(f, dep)]
+        ok, detail = False, ""
+        if len(sts) == 1 and len(dsts) == 1:
+            s_, t, v = sts[0]
+            table = T(t.value)
+            core = v.args[0] if isinstance(v, ast.Call) and len(v.args) == 1 and A.callee_name(v) in ("otRound", "int", "round") else v
+            bv = branch_values(prog, f, core)
+            fall = [(x, fs) for x, fs in bv if not (isinstance(x, ast.Call) and prog.is_call_to(f, x, GETATTR))]
+            expl = [(x, fs) for x, fs in bv if isinstance(x, ast.Call) and prog.is_call_to(f, x, GETATTR)]
+            reads_dep = lambda x: any(isinstance(n, ast.Attribute) and n.attr == dep and T(n.value) == table and isinstance(n.ctx, ast.Load) for n in ast.walk(x))
+            ok = bool(expl) and len(fall) >= 1 and all(reads_dep(x) for x, fs in fall) and T(dsts[0][1].value) == table \
+                and cfg.dominates(cfg.node_of(dsts[0][0]), cfg.node_of(s_))
+            detail = "; ".join(T(x, 50) for x, fs in fall)
+        else:
+            # not written field by field: at least the resolved sibling has to be read back somewhere
+            ok = any(isinstance(n, ast.Attribute) and n.attr == dep and isinstance(n.ctx, ast.Load) for n in A.body_nodes(f.node)) or \
+                any(isinstance(n, ast.Call) and isinstance(n.func, ast.Name) and n.func.id == "getattr" and len(n.args) >= 2 and isinstance(n.args[1], ast.Constant) and n.args[1].value == dep
+                    for n in A.body_nodes(f.node))
+            detail = f"{len(sts)} direct store(s)"
+        chk.ob("R16.13", f"{f.short}|{fld} falls back to a value computed from the resolved {dep}", ok, where(f, sts[0][0]) if sts else where(f), detail=detail,
+               message=f"{f.short}: the fallback of OS/2.{fld} is no longer computed from the resolved {dep} of the same table ({detail}): an explicit "
+                       f"{dep[1:]} in the font info no longer carries over to the absent {fld[1:]}")
+    chk.minimum("R16.13", 4)
+
+
 MUTANTS = [
+    M("superscript size falls back to the constant default instead of the resolved subscript size (seeded C16k)", "ufo2ft/outlineCompiler.py", "BaseOutlineCompiler.setupTable_OS2",
+      "v = os2.ySubscriptXSize", "v = unitsPerEm * 0.65", rule="R16.13"),
+    M("subscript x offset derived from the default y offset", "ufo2ft/outlineCompiler.py", "BaseOutlineCompiler.setupTable_OS2",
+      "v = adjustOffset(-os2.ySubscriptYOffset, italicAngle)", "v = adjustOffset(-otRound(unitsPerEm * 0.075), italicAngle)", rule="R16.13"),
     M("stems only written when the font has blues (seeded C16j)", "ufo2ft/outlineCompiler.py", "OutlineOTFCompiler.setupTable_CFF",
       "stemSnapH and stemSnapV", "blueValues and stemSnapH and stemSnapV", rule="R16.12"),
     M("unicode ranges set through the fontTools helper that rejects bits above 122 (seeded C16i)", "ufo2ft/outlineCompiler.py", "BaseOutlineCompiler.setupTable_OS2",
